@@ -72,7 +72,7 @@ CONFIG = {
                 "checked against every clause of the statement by the harness, and compared with the model's state on which repr_ok is evaluated",
     },
     "C13": {
-        "sort_tags": ("san",), "ignore_ops": NODE_IGNORE, "spec_tags": ("san",), "sample_tags": ("san",),
+        "sort_tags": ("san", "glabels"), "ignore_ops": NODE_IGNORE + ("game", "gtoggle", "gcoord", "galg", "gsnap", "gselect"), "spec_tags": ("san", "glabels"), "sample_tags": ("san", "glabels"),
         "rule": "the label of every legal move at every node, compared with the model's label, which the runner verifies against SanSpec (FIDE/PGN rule) and for pairwise distinctness",
     },
     "C16": {
@@ -120,7 +120,7 @@ CONFIG = {
                 "every answer is compared with the model's apply_by_coords / apply_by_notation",
     },
     "C15": {
-        "ignore_ops": ("pos", "game", "gnew", "gtoggle", "gsync"), "spec_tags": ("book", "gselect", "gengine", "gcoord", "watch", "play"), "sample_tags": ("book", "gselect", "gengine", "watch", "play"),
+        "ignore_ops": ("pos", "game", "gnew", "gtoggle", "gsync", "galg", "gsnap", "glabels"), "spec_tags": ("book", "gselect", "gengine", "gcoord", "watch", "play"), "sample_tags": ("book", "gselect", "gengine", "watch", "play"),
         "rule": "every node of the compiled opening-book trie (all prefixes of all lines) is compared with the continuations of the translated book source; the engine is asked for its move at every node "
                 "of every line, past the end of lines, and in supplied starting positions: the answer must be a legal move of the rules whenever one exists",
     },
@@ -193,6 +193,8 @@ def scenarios(pid, tier, seed):
             {"args": ["scen", "family=tree", "depth=2", "budget=%d" % (40 if q else 1200), "ops=san", "sync=1", S], "shards": 16},
             {"args": ["scen", "family=setups", "count=%d" % (200 if q else 8000), "depth=0", "ops=san", "sync=1", S], "shards": 16},
             {"args": ["scen", "family=walk", "count=%d" % (16 if q else 320), "len=40", "ops=san", "sync=1", S], "shards": 16},
+            # Game::enumerated_candidate_moves along games, incl. a placement met again with the other side to move
+            {"args": ["scen", "family=games", "len=7", "tempo=1", "names=bare-kings,pawn-ending,endgame-rp,castle-gives-check,single-reply,rooks-same-file,knights-no-shared,three-knights", "walkpos=%d" % (8 if q else 200), "maxpieces=8", S], "shards": 16},
         ]
     if pid == "C16":
         return [
@@ -272,6 +274,8 @@ def scenarios(pid, tier, seed):
     if pid == "C15":
         return [
             {"args": ["scen", "family=engine", "sdepth=1", "reps=%d" % (1 if q else 4), "walkpos=%d" % (16 if q else 300), S], "shards": 16},
+            # the engine asked for its move after a triangulation (same placement, other side to move, same Game)
+            {"args": ["scen", "family=games", "len=7", "tempo=1", "engine=1", "names=bare-kings,pawn-ending,endgame-rp,castle-gives-check,single-reply,rooks-same-file,knights-no-shared", "walkpos=%d" % (8 if q else 200), "maxpieces=8", S], "shards": 16},
             # the real `chess play` loop: the engine's replies to a typing human
             {"args": ["scen", "family=play", "games=%d" % (4 if q else 64), S], "shards": 4},
             # the real `chess watch` loop (game::computer_vs_computer), stdout captured: every move it prints must be a
